@@ -702,6 +702,15 @@ func (st *Runtime) evalPrimaryExpressionGroup(node Expression) reflect.Value {
 	case NodeSliceExpr:
 		node := node.(*SliceExprNode)
 		baseExpression := st.evalPrimaryExpressionGroup(node.Base)
+		switch baseExpression.Kind() {
+		case reflect.Slice, reflect.String:
+		case reflect.Array:
+			if !baseExpression.CanAddr() {
+				node.errorf("can't slice an array value that is not addressable (type %s)", baseExpression.Type())
+			}
+		default:
+			node.errorf("can't slice a value of type %s", getTypeString(baseExpression))
+		}
 
 		var index, length int
 		if node.Index != nil {
@@ -724,6 +733,13 @@ func (st *Runtime) evalPrimaryExpressionGroup(node Expression) reflect.Value {
 			length = baseExpression.Len()
 		}
 
+		max := baseExpression.Len()
+		if baseExpression.Kind() == reflect.Slice {
+			max = baseExpression.Cap()
+		}
+		if index < 0 || length < index || length > max {
+			node.errorf("slice bounds out of range [%d:%d] with length %d", index, length, baseExpression.Len())
+		}
 		return baseExpression.Slice(index, length)
 	}
 	return st.evalBaseExpressionGroup(node)
